@@ -17,7 +17,7 @@ type Atomizer func(e ast.Expr) (id string, neg bool, ok bool)
 type CondEval struct {
 	Info       *types.Info
 	Atom       Atomizer
-	Consistent func(S) bool    // prunes impossible valuations; may be nil
+	Consistent func(S) bool     // prunes impossible valuations; may be nil
 	OnUnknown  func(e ast.Expr) // called for each non-atom leaf forked
 	// Fold evaluates a leaf from the state alone (tracked constants …).
 	Fold func(e ast.Expr, s S) (val, ok bool)
